@@ -38,8 +38,12 @@ class Prop:
     def view(self, case, line):
         return line
 
+    panic_neutral = False   # True: a panicking call is outside this property's subject (it is C01's / C08's)
+
     def agree(self, case, il, ml):
         """do implementation line and model line agree inside this property's view?"""
+        if self.panic_neutral and il.startswith("PANIC") and "octet budget exceeded" not in il:
+            return True
         return self.view(case, il) == self.view(case, ml)
 
     def outcome(self, case, line):
